@@ -21,15 +21,25 @@ RULE = ("(1) pairs of Magnitudes from a value grid (either sign, arrays, zero wh
         "Magnitude/Quantity is created once and reused in 3-7 operations (arrays and scalars, every operator, a op a), model "
         "and oracle always get the creation-time state, operands re-read at the end; conversions include zero readings and "
         "targets given as BaseUnits/dict/text/Unit().x/reference Quantity of magnitude != 1; (5) Decimal magnitudes with Decimal/"
-        "float/int exact factors of either sign; constructors with the unit given as an exact or uncertain Quantity. non-trivial = at least one operand carries an error and (a negative "
+        "float/int exact factors of either sign; constructors with the unit given as an exact or uncertain Quantity; q.rebase() on "
+        "compound units mixing units of one dimension; augmented assignments (+= -= *= /=) on Magnitude and Quantity; operands "
+        "whose error exceeds the value (quotients judged for db<b and b<db<=2b); (6) sums/differences of logarithmic levels in "
+        "one unit (sum clause + non-negativity only). non-trivial = at least one operand carries an error and (a negative "
         "value/factor/exponent, an array, or different units) ; distinct = canonical JSON of the input")
 ASSUMPTIONS = [
     "operand errors are non-negative (abse >= 0, rele >= 0) as the property presupposes; magnitudes are floats, float "
     "arrays, and (Magnitude stream) scalar decimal.Decimal values with Decimal errors: the code's Decimal branches only wrap "
     "the operands in Decimal(), so the same model applies and results are compared through float() (1e-9); a Decimal combined "
     "with a float where the library raises TypeError today (Decimal error x float factor) is counted and not judged",
-    "first-order lower bounds are judged for positive values whose error interval of the divisor excludes zero (db < b); "
-    "without that the bound is false for any sensible propagation rule (see C08_first_order_div_needs_interval)",
+    "first-order lower bounds of quotients are judged for positive values with db < b (interval of the divisor excludes zero) "
+    "or b < db <= 2b (C08_first_order_div, ..._wide); for db > 2b the bound is false for the code and for any end-point rule "
+    "(C08_first_order_div_needs_interval) and at db = b the code divides by zero: there only non-negativity and impl = model "
+    "are checked",
+    "rebase(): judged for unit lists in which units sharing the NAMES of their dimensions have the same dimension vector "
+    "(rebase() keys on the names: 'm*l' or 'J*W-1' are merged as if they had one dimension - an issue of rebase itself that "
+    "the properties C06/C08 do not speak about; reported to the coordinator, not judged)",
+    "logarithmic levels: both operands in the same unit and prefix, minuend above subtrahend; values are not judged (C05), "
+    "only the uncertainty clauses",
     "** with an error attached is judged for non-zero values (the code divides by |value|; 0 gives nan) and fractional "
     "exponents for positive values",
     "a result that is NaN/inf (or a ZeroDivision/Overflow exception) is a violation when the model's result is an ordinary "
@@ -97,6 +107,16 @@ def gen_mag(rng, positive=False, nonzero=False, err_p=0.75, arrays=True):
 
 def gen_mag_case(rng):
     r = rng.random()
+    if r < 0.07:
+        # poorly determined operands: the absolute error exceeds the value (interval reaches across zero)
+        op = rng.choice(["div", "div", "mul", "div"])
+        pos = rng.random() < 0.7
+        lv = U.gen_value(rng, positive=pos, nonzero=True)
+        rv = U.gen_value(rng, positive=pos, nonzero=True, arrays=not isinstance(lv, list))
+        lo = lambda v: min(abs(x) for x in v) if isinstance(v, list) else abs(v)
+        l = {"v": lv} if rng.random() < 0.25 else {"v": lv, "abse": lo(lv) * rng.choice([0.1, 0.3, 1.5])}
+        rr = {"v": rv, "abse": lo(rv) * rng.choice([1.2, 1.5, 2.0, 2.5, 4.0])}
+        return {"op": op, "l": l, "r": rr}
     if r < 0.6:
         op = rng.choice(["add", "sub", "mul", "div", "mul", "div"])
         pos = rng.random() < 0.4
@@ -106,7 +126,10 @@ def gen_mag_case(rng):
             rr["v"] = [x if x != 0 else 2.0 for x in rr["v"]]
         if isinstance(l["v"], list) and isinstance(rr["v"], list) and len(l["v"]) != len(rr["v"]):
             rr = gen_mag(rng, positive=pos, nonzero=True, arrays=False)
-        return {"op": op, "l": l, "r": rr}
+        c = {"op": op, "l": l, "r": rr}
+        if rng.random() < 0.12:
+            c["aug"] = True           # l += r etc.
+        return c
     if r < 0.8:
         op = rng.choice(["add", "sub", "mul", "div", "mul", "div"])
         m = gen_mag(rng, nonzero=True, err_p=0.9)
@@ -163,6 +186,11 @@ MAG_CORPUS = [
     {"op": "div", "l": {"num": -2.0}, "r": {"v": [-2.0, 3.0], "rele": 10.0}},
     {"op": "add", "l": {"v": 1.0}, "r": {"v": 2.0}},
     {"op": "neg", "l": {"v": [1.0, -2.0], "abse": 0.5}},
+    {"op": "div", "l": {"v": 10.0, "abse": 1.0}, "r": {"v": 0.5, "abse": 0.6}},   # divisor known worse than 100 %
+    {"op": "div", "l": {"v": [10.0, 10.0], "abse": 1.0}, "r": {"v": [0.5, 5.0], "abse": 0.6}},
+    {"op": "div", "l": {"num": 3.0}, "r": {"v": 2.0, "abse": 3.0}},
+    {"op": "div", "l": {"v": 10.0, "abse": 1.0}, "r": {"v": 0.5, "abse": 2.0}},
+    {"op": "add", "l": {"v": [2.0, 3.0], "abse": 0.01}, "r": {"v": 0.5, "abse": 0.05}, "aug": True},
     {"op": "mul", "l": {"v": 12.0, "abse": 0.2}, "same": True},              # a*a : product rule, not the ** rule
     {"op": "mul", "l": {"v": [12.0, 3.0], "abse": 0.2}, "same": True},
     {"op": "div", "l": {"v": 4.0, "abse": 0.1}, "same": True},
@@ -174,7 +202,10 @@ MAG_CORPUS = [
 def apply_mag_op(c, l, r, req):
     """the operation on the real objects; non-finite results are kept and marked"""
     try:
-        if c["op"] == "add":
+        if c.get("aug") and c["op"] in ("add", "sub", "mul", "div"):
+            import operator
+            res = {"add": operator.iadd, "sub": operator.isub, "mul": operator.imul, "div": operator.itruediv}[c["op"]](l, r)
+        elif c["op"] == "add":
             res = l + r
         elif c["op"] == "sub":
             res = l - r
@@ -424,6 +455,13 @@ QTY_CORPUS = [
     {"op": "pow_int", "lv": 2.0, "lu": U.U(("k", "m", 1, 1), ("", "m", -1, 1), ("", "%", 1, 1)), "le": 0.1, "p": [2, 1]},
     {"op": "new", "lv": 4.0, "lu": U.U(("k", "m", 1, 1), ("", "m", -1, 1)), "le": 0.2},
     {"op": "new", "lv": -4.0, "lu": U.U(("", "J", 1, 1), ("", "erg", -1, 1)), "le": 0.2},
+    # rebase(): units of one dimension merged (a change of unit by a constant factor)
+    {"op": "rebase", "lv": 10.0, "lu": U.U(("", "m", 1, 1), ("c", "m", 1, 1)), "le": 0.7},
+    {"op": "rebase", "lv": [3.0, 6.0], "lu": U.U(("", "m", 2, 1), ("c", "m", -1, 1)), "le": 0.3},
+    # augmented assignment with an uncertain right operand
+    {"op": "add", "aug": True, "lv": [2.0, 3.0, 4.0], "lu": U.U(("", "m", 1, 1)), "le": 0.01, "rv": [10.0, 20.0, 30.0], "ru": U.U(("c", "m", 1, 1)), "re": 0.5},
+    {"op": "sub", "aug": True, "lv": [2.0, 3.0], "lu": U.U(("", "m", 1, 1)), "rv": 1.0, "ru": U.U(("d", "m", 1, 1)), "re": 0.2},
+    {"op": "add", "aug": True, "lv": 2.0, "lu": U.U(("", "s", 1, 1)), "le": 0.1, "rv": 3.0, "ru": U.U(("", "min", 1, 1)), "re": 0.5},
     # the unit given as an uncertain quantity
     {"op": "newq", "lv": 4.0, "lu": [], "le": 0.2, "rv": 2.5, "ru": U.U(("c", "m", 1, 1)), "re": 0.1},
     {"op": "newq", "lv": -3.0, "lu": [], "rv": 2.5, "ru": U.U(("k", "m", 1, 1)), "re": 0.1},
@@ -462,11 +500,11 @@ def judge_qty(ctx, c, req, imp, ans, stream="qty"):
     if "ok" not in ans:
         ctx.disagreement(stream, c, str(ans))
         return
+    if not U.exponent_judgeable(ctx, c, req):
+        return
     mod = ans["ok"]["model"]
     name = "Quantity." + c["op"].split("_")[0]
     what = "Quantity %s %s" % (c["op"], U.describe(c))
-    if c.get("history"):
-        what += " after " + "; ".join(c["history"])
     if U.is_nonfinite(imp):
         if U.model_is_sane(mod, req["env"]):
             ctx.violation("notanumber:" + name, "%s gives %s where value %s error %s are ordinary numbers" %
@@ -523,7 +561,7 @@ def fold_keeps_relative(ctx, name, c, req, imp, what):
         elif op == "pow":
             n, d = c["p"]
             m = l ** (int(n) if c["op"] == "pow_int" else n / d)
-        elif op == "new":
+        elif op in ("new", "rebase"):
             m = l
         else:
             return
@@ -546,6 +584,58 @@ def fold_keeps_relative(ctx, name, c, req, imp, what):
                       "%s: relative uncertainty is %s, the same operation on the bare magnitudes gives %s "
                       "(unit factors are exact, they must scale error and value alike)" % (what, r1, r0),
                       {"case": c, "impl": imp, "bare": {"v": mv, "e": me}})
+
+
+# ---------------------------------------------------------------- stream 6: sums and differences of logarithmic levels
+LOG_UNITS = ["dB", "dBA", "dBm", "dBW", "dBV", "dBSPL", "Np", "B", "dNp", "dBuV"]
+
+
+def log_stream(ctx, count):
+    """Quantity + Quantity and Quantity - Quantity for levels in one logarithmic unit (both operands the same unit and
+    prefix). The values are C05's business; judged here: the clause 'for sums and differences the uncertainty is the sum
+    of the operands' uncertainties' (that is what the code does for levels) and non-negativity. No model of the level
+    arithmetic: only the specification side of the driver (sum rule) is used."""
+    from scinumtools.units import Quantity
+    cases = [("sub", "dBA", 87.0, 0.5, 83.0, 0.7), ("add", "dB", 30.0, 0.7, 20.0, 0.5), ("sub", "dB", [30.0, 40.0], 0.2, [20.0, 20.0], 0.3),
+             ("sub", "Np", 3.0, None, 2.0, 0.7), ("sub", "dBm", 30.0, 0.7, 20.0, None), ("add", "dBV", 3.0, None, 2.0, None)]
+    for _ in range(count):
+        u = ctx.rng.choice(LOG_UNITS)
+        hi = ctx.rng.choice([30.0, 87.0, 12.5, 3.0, [30.0, 40.0]])
+        lo_ = [x - ctx.rng.choice([1.0, 4.0, 10.0]) for x in hi] if isinstance(hi, list) else hi - ctx.rng.choice([1.0, 4.0, 10.0])
+        op = ctx.rng.choice(["add", "sub", "sub"])
+        l, r = (hi, lo_) if op == "sub" or ctx.rng.random() < 0.5 else (lo_, hi)
+        le = None if ctx.rng.random() < 0.2 else ctx.rng.choice([0.1, 0.2, 0.5, 0.7])
+        re_ = None if ctx.rng.random() < 0.2 else ctx.rng.choice([0.1, 0.3, 0.5, 0.7, 1.0])
+        cases.append((op, u, l, le, r, re_))
+    reqs, imps, kept = [], [], []
+    for op, u, lv, le, rv, re_ in cases:
+        try:
+            a = Quantity(list(lv) if isinstance(lv, list) else lv, u, abse=le)
+            b = Quantity(list(rv) if isinstance(rv, list) else rv, u, abse=re_)
+            sa, sb = U.state(a), U.state(b)
+            res = a + b if op == "add" else a - b
+            imp = {"v": U.fl(res.magnitude.value), "e": U.fl(res.magnitude.error)}
+        except Exception:
+            ctx.count("log.raised")
+            continue
+        if not (U.finite(imp["v"]) and U.finite(imp["e"])):
+            ctx.count("log.nonfinite")
+            continue
+        kept.append({"op": op, "unit": u, "lv": lv, "le": le, "rv": rv, "re": re_})
+        reqs.append({"k": "mag", "op": op, "l": {"v": sa["v"], "e": sa["e"]}, "r": {"v": sb["v"], "e": sb["e"]}})
+        imps.append(imp)
+    answers = U.ask_many(ctx, reqs)
+    for c, imp, ans in zip(kept, imps, answers):
+        ctx.count("log." + c["op"])
+        ctx.count("log.unit." + c["unit"])
+        if "ok" not in ans:
+            ctx.disagreement("log", c, str(ans))
+            continue
+        ctx.case(json.dumps(c, sort_keys=True), c["le"] is not None or c["re"] is not None, {"level_case": c, "abse": imp["e"]})
+        what = "Quantity(%r%s '%s') %s Quantity(%r%s '%s')" % (
+            c["lv"], "" if c["le"] is None else "±%g" % c["le"], c["unit"], "+" if c["op"] == "add" else "-",
+            c["rv"], "" if c["re"] is None else "±%g" % c["re"], c["unit"])
+        check_rule(ctx, "Quantity.%s(levels)" % c["op"], c, imp["e"], ans["ok"]["spec"], what)
 
 
 # ---------------------------------------------------------------- stream 5: Decimal magnitudes
@@ -659,50 +749,6 @@ def decimal_stream(ctx, count):
 
 
 # ---------------------------------------------------------------- stream 4: histories that reuse the same objects
-NZ = [1.0, -1.0, 2.0, 0.5, -3.0, 3.5, 12.0, 7.0, 10.0, 20.0, -0.25]
-
-
-def same_state(a, b):
-    return U.close(a.get("v"), b.get("v")) and U.close(a.get("e"), b.get("e")) and \
-        [(u, U.qfrac(n, d)) for u, n, d in a.get("u", [])] == [(u, U.qfrac(n, d)) for u, n, d in b.get("u", [])] and \
-        (a.get("e") is None) == (b.get("e") is None)
-
-
-def gen_pool_values(rng, n):
-    arr = rng.random() < 0.75
-    length = rng.choice([2, 3])
-    out = []
-    for i in range(n):
-        if arr and (i == 0 or rng.random() < 0.6):
-            v = [rng.choice(NZ) for _ in range(length)]
-        else:
-            v = rng.choice(NZ)
-        e = None if rng.random() < 0.15 else (min(abs(x) for x in v) if isinstance(v, list) else abs(v)) * rng.choice([0.05, 0.1, 0.2])
-        out.append((v, e))
-    return out
-
-
-def gen_steps(rng, n, quantity):
-    steps = []
-    for _ in range(rng.randint(3, 6)):
-        op = rng.choice(["add", "sub", "sub", "sub", "mul", "div", "neg", "pow", "add", "mul"])
-        i, j = rng.randrange(n), rng.randrange(n)
-        num = None
-        if op in ("add", "sub", "mul", "div") and rng.random() < 0.15 and (not quantity or op in ("mul", "div")):
-            num = rng.choice([2.0, -3.0, 0.5])
-        steps.append((op, i, j, num, rng.choice([2, -1, 3])))
-    return steps
-
-
-def step_text(op, i, j, num, p):
-    sym = {"add": "+", "sub": "-", "mul": "*", "div": "/"}
-    if op == "neg":
-        return "-x%d" % i
-    if op == "pow":
-        return "x%d**%d" % (i, p)
-    return "x%d %s %s" % (i, sym[op], ("x%d" % j) if num is None else repr(num))
-
-
 # (op, i, j, plain number or None, exponent): array-valued and scalar operands used again and again
 HISTORY_CORPUS = [
     {"quantity": False, "vals": [([10.0, 20.0], 0.5), ([1.0, 2.0], 0.1), (3.0, 0.3)],
@@ -721,110 +767,61 @@ HISTORY_CORPUS = [
 def history_stream(ctx, count):
     """Every operand object is created ONCE and then used in several operations. Model and specification always get the
     state the operands were created with: an operation that changes its operand makes a later result (and the operand's
-    own abse) drift away from the propagation rules."""
-    from scinumtools.units import Magnitude
-    pending = []     # (judge, case, req, imp)
-    finals = []      # (kind, description, snapshot, object, history)
-    for h in range(count + len(HISTORY_CORPUS)):
-        quantity = h % 2 == 1
+    own abse) drift away from the propagation rules. Magnitude histories here, Quantity histories in c06.qty_history."""
+    pending, finals = [], []
+    presets = [h for h in HISTORY_CORPUS if not h["quantity"]]
+    for h in range(count // 2 + len(presets)):
         n = 3
-        preset = HISTORY_CORPUS[h] if h < len(HISTORY_CORPUS) else None
-        if preset:
-            quantity, vals, steps = preset["quantity"], preset["vals"], preset["steps"]
-        else:
-            vals = gen_pool_values(ctx.rng, n)
-            steps = gen_steps(ctx.rng, n, quantity)
-        if not quantity:
-            specs = [{"v": v} if e is None else {"v": v, "abse": e} for v, e in vals]
-            objs = [mk_mag(sp) for sp in specs]
-            snaps = [mag_state(o) for o in objs]
-            done = []
-            for op, i, j, num, p in steps:
-                c = {"op": op, "l": specs[i], "pool": specs, "history": list(done)}
-                req = {"k": "mag", "op": op, "l": snaps[i]}
-                l, r = objs[i], None
-                if op in ("add", "sub", "mul", "div"):
-                    if num is not None:
-                        c["r"], req["r"], r = {"num": num}, {"num": num}, num
-                    else:
-                        c["r"], req["r"], r = specs[j], snaps[j], objs[j]
-                        if i == j:
-                            c["same"] = True
-                elif op == "pow":
-                    c["p"], c["float"] = [p, 1], False
-                imp = apply_mag_op(c, l, r, req)
-                done.append(step_text(op, i, j, num, p))
-                pending.append(("mag", c, req, imp))
-            for k in range(n):
-                finals.append(("Magnitude", "x%d = Magnitude(%s)" % (k, json.dumps(specs[k])), snaps[k], mag_state(objs[k]),
-                               done, {"pool": specs}))
-        else:
-            if preset:
-                us = preset["units"]
-            else:
-                lu = U.gen_units(ctx.rng, 2)
-                us = [lu] + [(U.variant(ctx.rng, lu) or lu) if ctx.rng.random() < 0.7 else lu for _ in range(n - 1)]
-            try:
-                objs = [U.build("dict", v, e, u)[0] for (v, e), u in zip(vals, us)]
-            except Exception:
-                continue
-            snaps = [U.state(o) for o in objs]
-            env = U.env_rows([x[0] for sn in snaps for x in sn["u"]])
-            done = []
-            for op, i, j, num, p in steps:
-                c = {"op": op if op != "pow" else "pow_int", "lv": vals[i][0], "lu": us[i], "le": vals[i][1],
-                     "history": list(done), "pool": [[v, e, U.text_of(u)] for (v, e), u in zip(vals, us)]}
-                req = {"k": "qty", "op": op, "l": snaps[i], "env": env}
-                l, r = objs[i], None
-                if op in ("add", "sub", "mul", "div"):
-                    if num is not None:
-                        c.update({"rv": num, "ru": None, "plain": True})
-                        req["r"], r = {"num": num}, num
-                    else:
-                        c.update({"rv": vals[j][0], "ru": us[j], "re": vals[j][1]})
-                        req["r"], r = snaps[j], objs[j]
-                        if i == j:
-                            c["same"] = True
-                elif op == "pow":
-                    c["p"] = [p, 1]
-                    req["p"] = [p, 1]
-                try:
-                    res = {"add": lambda: l + r, "sub": lambda: l - r, "mul": lambda: l * r, "div": lambda: l / r,
-                           "neg": lambda: -l, "pow": lambda: l ** p}[op]()
-                    imp = U.mark_nonfinite(U.observe(res))
-                except (ZeroDivisionError, OverflowError, FloatingPointError):
-                    imp = "nonfinite"
-                except Exception:
-                    imp = "err"
-                done.append(step_text(op, i, j, num, p))
-                pending.append(("qty", c, req, imp))
-            for k in range(n):
-                finals.append(("Quantity", "x%d = Quantity(%r%s, '%s')" % (
-                    k, vals[k][0], "" if vals[k][1] is None else ", abse=%g" % vals[k][1], U.text_of(us[k])),
-                    snaps[k], U.state(objs[k]), done, {"pool": [[v, e, U.text_of(u)] for (v, e), u in zip(vals, us)]}))
-    answers = U.ask_many(ctx, [r for _, _, r, _ in pending])
-    for (kind, c, req, imp), ans in zip(pending, answers):
-        if kind == "mag":
-            judge_mag(ctx, c, req, imp, ans, stream="history.mag")
-        else:
-            judge_qty(ctx, c, req, imp, ans, stream="history.qty")
-    for kind, text, snap, now, done, extra in finals:
+        preset = presets[h] if h < len(presets) else None
+        vals = preset["vals"] if preset else U.gen_pool_values(ctx.rng, n)
+        steps = preset["steps"] if preset else U.gen_steps(ctx.rng, n, False)
+        specs = [{"v": v} if e is None else {"v": v, "abse": e} for v, e in vals]
+        objs = [mk_mag(sp) for sp in specs]
+        snaps = [mag_state(o) for o in objs]
+        done = []
+        for op, i, j, num, p in steps:
+            c = {"op": op, "l": specs[i], "pool": specs, "history": list(done)}
+            req = {"k": "mag", "op": op, "l": snaps[i]}
+            l, r = objs[i], None
+            if op in ("add", "sub", "mul", "div"):
+                if num is not None:
+                    c["r"], req["r"], r = {"num": num}, {"num": num}, num
+                else:
+                    c["r"], req["r"], r = specs[j], snaps[j], objs[j]
+                    if i == j:
+                        c["same"] = True
+            elif op == "pow":
+                c["p"], c["float"] = [p, 1], False
+            imp = apply_mag_op(c, l, r, req)
+            done.append(U.step_text(op, i, j, num, p))
+            pending.append((c, req, imp))
+        for k in range(n):
+            finals.append(("x%d = Magnitude(%s)" % (k, json.dumps(specs[k])), snaps[k], mag_state(objs[k]), done, specs))
+    answers = U.ask_many(ctx, [r for _, r, _ in pending])
+    for (c, req, imp), ans in zip(pending, answers):
+        judge_mag(ctx, c, req, imp, ans, stream="history.mag")
+    for text, snap, now, done, specs in finals:
         ctx.count("history.operands-rechecked")
-        if not same_state(snap, now):
-            ctx.violation("history:operand-uncertainty-changed:" + kind,
+        if not U.same_state(snap, now):
+            ctx.violation("history:operand-uncertainty-changed:Magnitude",
                           "%s carries value %s abse %s after the operations [%s]; it was created with value %s abse %s, so "
                           "every later result propagates a wrong uncertainty" %
                           (text, now.get("v"), now.get("e"), "; ".join(done), snap.get("v"), snap.get("e")),
-                          dict(extra, steps=done, created=snap, now=now))
+                          {"pool": specs, "steps": done, "created": snap, "now": now})
+    U.qty_history(ctx, count - count // 2, lambda ctx, c, req, imp, ans: judge_qty(ctx, c, req, imp, ans, stream="history.qty"),
+                  [h for h in HISTORY_CORPUS if h["quantity"]], "history:operand-uncertainty-changed:Quantity")
 
 
 def correspond(ctx: Ctx):
+    import warnings
+    warnings.simplefilter("ignore", RuntimeWarning)      # numpy's divide-by-zero / overflow notices (such cases are not judged)
     th = ctx.tier == "thorough"
     mag_stream(ctx, 12000 if th else 2500)
     to_stream(ctx, 6000 if th else 1200)
     qty_stream(ctx, 5000 if th else 1000)
     history_stream(ctx, 1500 if th else 300)
     decimal_stream(ctx, 2500 if th else 500)
+    log_stream(ctx, 1000 if th else 200)
 
 
 def replay(ctx, payload):
